@@ -85,6 +85,22 @@ Theorem C12_B5_for_step_order_fixed : c12_deviates w_B5_for_step_order [97; 46; 
 Proof. vm_compute. reflexivity. Qed.
 Print Assumptions C12_B5_for_step_order_fixed.
 
+(* a.lua: local c = 5\nlocal d = 1, 2, c\nuse(d)\n *)
+Definition w_local_surplus : list (list N * list N) :=
+  [([97; 46; 108; 117; 97], [108; 111; 99; 97; 108; 32; 99; 32; 61; 32; 53; 10; 108; 111; 99; 97; 108; 32; 100; 32; 61; 32; 49; 44; 32; 50; 44; 32; 99; 10; 117; 115; 101; 40; 100; 41; 10])].
+(* unvisited_local_surplus, FIXED (fixes/C20-local-surplus.diff): cgLocalVarDeclStat left its expression loop (`break`)
+   after the FIRST initialiser beyond the names of `local a = 1, 2, <here>, <and here>`: the later ones were never
+   analysed by any pass - their closures got no scope, the names read there no reference.  `before_surplus` = the code
+   of /repo before that repair; the witness deviates there and no longer for the code now in /repo. *)
+(* cursor on the read of c in the third value (line 1, column 16): definition found the declaration, but the references
+   from there did not contain the cursor's own occurrence *)
+Theorem C12_local_surplus_refuted_before_fix : c12_deviates_fx before_surplus w_local_surplus [97; 46; 108; 117; 97] 1 16 = true.
+Proof. vm_compute. reflexivity. Qed.
+Print Assumptions C12_local_surplus_refuted_before_fix.
+Theorem C12_local_surplus_fixed : all_in_fragment w_local_surplus = true /\ c12_deviates w_local_surplus [97; 46; 108; 117; 97] 1 16 = false.
+Proof. vm_compute. split; reflexivity. Qed.
+Print Assumptions C12_local_surplus_fixed.
+
 (* a.lua: do g = 1 end\ng = 2\nuse(g)\n *)
 Definition w_global_mixed_levels : list (list N * list N) :=
   [([97; 46; 108; 117; 97], [100; 111; 32; 103; 32; 61; 32; 49; 32; 101; 110; 100; 10; 103; 32; 61; 32; 50; 10; 117; 115; 101; 40; 103; 41; 10])].
